@@ -368,3 +368,27 @@ def c01_end_block(run):
     if not n_ok:
         raise Inconclusive('vacuity: no Ok path')
     run.require_reached(*run.cur.reach)
+
+
+
+def replay_f7(model=None, path=None):
+    """native demonstration of F7: fee() saturates instead of following base + multiplier * variable"""
+    from vlib import replay
+    code = open('/verif/replay_templates/c01_fee_saturation.rs').read()
+    r = replay.run_crate_test('astria-sequencer', 'crates/astria-sequencer/src/checked_actions/utils.rs', code, 'verif_replay_c01')
+    if not r['lines']:
+        return {'mode': 'native-crate-test', 'reproduced': None, 'error': r['output'][-1500:]}
+    o = r['lines'][-1]
+    return {'mode': 'native-crate-test', 'scenario': 'BridgeLock fee components base = u128::MAX - 1, multiplier = 2', 'observed': o,
+            'reproduced': (not o['formula_fits_u128']) and o['charged'] == str((1 << 128) - 1)}
+
+
+@obligation('C01', 'C01-2n native demonstration of the recorded finding F7 (informational: records whether it still reproduces; never fails the check)', tiers=('thorough',))
+def c01_2n(run):
+    run.bound(scenario='one concrete fee configuration')
+    v = replay_f7()
+    run.sample({'native_demonstration': v})
+    run.cur.paths += 1
+    run.reached('native demonstration executed')
+    if v.get('reproduced') is None:
+        run.cur.notes.append('native demonstration of F7 could not be run: ' + str(v.get('error'))[-300:])
